@@ -85,6 +85,13 @@ instance : Scalar Float where
   atan2 := Float.atan2
   powf := Float.pow
   ln := Float.log
+  log2 := Float.log2
+  fma a b c :=
+    match floatToRat? a, floatToRat? b, floatToRat? c with
+    | some ra, some rb, some rc =>
+      let r := ra * rb + rc
+      if r == 0 then a * b + c else ratToFloat r
+    | _, _, _ => a * b + c
   hypot x y := Float.sqrt (x * x + y * y)
   copysign a b := if floatSignBit b then -a.abs else a.abs
   fin x := x.isFinite
